@@ -18,6 +18,15 @@ def _impl_case(case):
     import mido
     t, d, time = case
     fail = None
+    if len(d) and sum(hash(str(v)) for v in d.values()) % 7 == 0:
+        # rejected calls earlier in the process (truncated bytes, out-of-range values, text that is no hex) leave no trace
+        for bad in (lambda: mido.Message.from_bytes([0x90, 1]), lambda: mido.Message('note_on', note=999),
+                    lambda: mido.Message.from_hex('9Z 00'), lambda: mido.Message.from_bytes([0xf0, 1, 2]),
+                    lambda: mido.Message('sysex', data=[1, 300])):
+            try:
+                bad()
+            except (ValueError, TypeError):
+                pass
     try:
         m = mido.Message(t, time=time, **d)
         bs = m.bytes()
